@@ -165,7 +165,7 @@ def run_case(case):
     for step in range(steps):
         if step > 0:
             # ---- the distribution / configuration is changed through the public interface between two samplings
-            how = rng.choice(["jdd-setter", "in-place", "in-place-weights", "sizes-setter", "recreate"] + (["empirical-setter"] * 2 if carrier == "empirical" else []))
+            how = rng.choice(["jdd-setter", "in-place", "in-place-weights", "sizes-setter", "recreate", "inadmissible-sizes"] + (["empirical-setter"] * 2 if carrier == "empirical" else []))
             history.append(how)
             res.count("history_updates")
             res.seen("update_kinds", how)
@@ -193,6 +193,21 @@ def run_case(case):
             elif how == "sizes-setter":
                 sizes = [rng.choice([1, 2, 3, 4, 5]) for _ in range(T)]
                 L.motif_sizes = list(sizes)
+            elif how == "inadmissible-sizes":
+                # a configuration call with a value outside the domain (a motif size < 1): a library that REFUSES it must be left as it
+                # was configured before; one that accepts it is re-configured with the admissible sizes through the same setter
+                bad = list(sizes)
+                bad[rng.randrange(T)] = rng.choice([0, -1, -3])
+                try:
+                    L.motif_sizes = bad
+                    refused = False
+                except Exception:
+                    refused = True
+                if refused:
+                    res.count("refused_configuration_calls")
+                else:
+                    res.count("inadmissible_sizes_accepted_then_reset")
+                    L.motif_sizes = list(sizes)
             elif how == "recreate":
                 sut("create_jdd (again)", L.create_jdd)
                 if carrier == "empirical":
